@@ -1170,6 +1170,11 @@ func (c *vfSimConn) handleProduce(version int16, body []byte, wireSize int) ([]b
 	for _, f := range timing {
 		s.applyDelayAndGate(f)
 	}
+	if len(timing) > 0 && c.conn.peerClosed() {
+		// the client gave up on this connection while the answer was delayed or held: for the producer that is a
+		// connection-level failure of the request
+		s.ev(vfEvent{Kind: "produce-drop", Broker: c.broker.ID, Conn: c.id, Fault: "client-closed"}, true)
+	}
 	if acks == 0 && (reqAction == "silent" || reqAction == "silentApplied") {
 		return nil, "noresponse" // nobody waits for an answer: silence is indistinguishable from normal operation
 	}
